@@ -110,6 +110,12 @@ func vsimCropRun(r *sim.Run, c08 bool) {
 			if !v.MdatFirst {
 				v.MdatLast = t.Bool()
 			}
+			if t.Chance(300) {
+				v.EmptyMdat, v.EmptyLarge = 1+t.Draw(3), t.Bool() // an extra, empty media data box (legal)
+			}
+			if t.Chance(200) {
+				v.FreePad, v.FreeLarge = 8+t.Draw(24), t.Bool()
+			}
 			if nd, err := work.ApplyLayout(img, v); err == nil {
 				img = nd
 				name += "[" + v.String() + "]"
